@@ -192,7 +192,7 @@ def gen_exhaustive(tier):
                         cases.append({"text": text, "edits": [(t, new, "")], "include_index": False, "highlight_only": hl})
             # two edits: first an arbitrary target, then a substring (interference)
             subs = substrings(list(seq))
-            for t1 in ARB_TARGETS[:3] + subs[:2]:
+            for t1 in ARB_TARGETS[:3] + subs[:2] + [""]:
                 for t2 in subs[:3]:
                     cases.append({"text": text, "edits": [(t1, "X", ""), (t2, "Q", "c")], "include_index": True,
                                   "highlight_only": False})
@@ -259,7 +259,7 @@ def gen_random(tier, seed):
         k = rng.randint(1, 3)
         edits = []
         for _ in range(k):
-            t = rand_target(rng, text)
+            t = rand_target(rng, text) if rng.random() > 0.06 else ""
             new = rng.choice(["", "X", "revised", "**X**", "_it_", t.upper(), "two words", "a\nb", "__init__", "“q”"])
             edits.append((t, new, rng.choice(["", "", "why", "see [Edit:9]"]) if rng.random() < 0.5 else ""))
         cases.append({"text": text, "edits": edits, "include_index": rng.random() < 0.5, "highlight_only": rng.random() < 0.25})
